@@ -309,11 +309,13 @@ impl System for Sys {
         for a in (0..=size / 4 + 1).map(|c| c * 4) {
             v.push(Op::Truncate(a));
         }
-        for pos in [0usize, 4, size] {
+        for pos in [0usize, 4, size, size + 4, size + 1] {
             for ge in [false, true] {
                 v.push(Op::WriterAllocate(pos, 4, ge));
             }
         }
+        v.push(Op::WriterAllocate(size, 2, false));
+        v.push(Op::WriterAllocate(size + 4, 2, true));
         if depth >= self.full_depth {
             return v;
         }
@@ -453,6 +455,65 @@ fn large_script(o: &mut Outcome) -> (u64, Value) {
     (done, serde_json::to_value(&script).unwrap())
 }
 
+/// Medium archives: a table of `n` pointer cells at the front pointing at records behind it,
+/// records carrying strings, a pending c-string, labels (two on one address) and a pointer
+/// back into the table. Thresholds that depend on the NUMBER of annotations (a fast path for
+/// "fewer than len/8 moved", a sort that changes algorithm above 20 elements, ...) show here.
+fn medium_init(n: usize, e: End) -> Content {
+    let recs = 6usize;
+    let cells = n + recs * 2;
+    let mut c = Content::new(e);
+    c.data = (0..cells * 4).map(|i| (i as u8).wrapping_mul(7).wrapping_add(3)).collect();
+    let rec_base = n * 4;
+    for i in 0..n {
+        c.data[4 * i..4 * i + 4].copy_from_slice(&[0; 4]);
+        // targets spread over the records, the end address included
+        c.pointers.insert(4 * i, rec_base + ((i * 8) % (recs * 8 + 4)));
+    }
+    for r in 0..recs {
+        let a = rec_base + r * 8;
+        c.data[a..a + 4].copy_from_slice(&[0; 4]);
+        match r % 3 {
+            0 => {
+                c.strings.insert(a, format!("rec{}", r % 2));
+            }
+            1 => {
+                c.cstrings.insert(a, format!("pool{}", r));
+            }
+            _ => {
+                c.pointers.insert(a, 4 * (r % n.max(1)));
+            }
+        }
+        c.labels.insert(a, if r == 2 { vec!["R2".into(), "R2b".into()] } else { vec![format!("R{}", r)] });
+    }
+    c.labels.insert(cells * 4, vec!["End".into()]);
+    c
+}
+
+/// depth-bounded search over the relocation operations at EVERY cell of the medium archives
+fn medium_search(tier: Tier, o: &mut Outcome, cov: &mut Coverage) {
+    let mut per = Vec::new();
+    let plan: Vec<(usize, End, usize)> = match tier {
+        Tier::Quick => vec![(7, End::Little, 1), (8, End::Little, 2), (9, End::Big, 1), (21, End::Little, 1), (33, End::Big, 1), (65, End::Little, 1), (130, End::Little, 1)],
+        Tier::Thorough => vec![(7, End::Little, 2), (8, End::Little, 2), (9, End::Big, 2), (16, End::Big, 2), (21, End::Little, 2), (33, End::Big, 2), (65, End::Little, 1), (130, End::Little, 1), (257, End::Big, 1)],
+    };
+    for (n, e, depth) in plan {
+        let init = medium_init(n, e);
+        let size = init.size();
+        let sys = Sys { inits: vec![init], s_max: size + 16, full_depth: 0 };
+        let rep = bfs::explore(&sys, Some(depth), Some(3_000_000));
+        cov.states += rep.states;
+        cov.transitions += rep.transitions;
+        cov.traces_validated_against_impl += rep.transitions;
+        cov.evaluations += rep.transitions;
+        per.push(json!({"pointer_table_cells": n, "endian": format!("{:?}", e), "bytes": size, "depth": depth, "states": rep.states, "transitions": rep.transitions}));
+        for v in rep.violations {
+            o.violate(format!("medium:{}", v.sig), format!("[{} pointer cells + 6 records, {:?}] {}", n, e, v.summary.chars().take(700).collect::<String>()), json!({"medium": n, "endian": format!("{:?}", e), "history": op_json(&v.history)}));
+        }
+    }
+    cov.extra.insert("medium_archives".into(), json!(per));
+}
+
 fn explore(ctx: &Ctx) -> Outcome {
     let (max_depth, full_depth, s_max) = bounds(ctx.tier);
     let sys = Sys { inits: init_states(ctx.tier), s_max, full_depth };
@@ -491,6 +552,7 @@ fn explore(ctx: &Ctx) -> Outcome {
             o.warn(format!("witness never reached: {}", name));
         }
     }
+    medium_search(ctx.tier, &mut o, &mut cov);
     let (steps, script) = large_script(&mut o);
     cov.transitions += steps;
     cov.traces_validated_against_impl += steps;
@@ -517,6 +579,19 @@ fn replay(ctx: &Ctx, case: &Value) -> Vec<Violation> {
     }
     let hist: Vec<Op> = serde_json::from_value(case["history"].clone()).unwrap_or_default();
     if hist.is_empty() {
+        return vec![];
+    }
+    if let Some(n) = case["medium"].as_u64() {
+        let e = if case["endian"] == "Big" { End::Big } else { End::Little };
+        let init = medium_init(n as usize, e);
+        let sys = Sys { s_max: init.size() + 16, inits: vec![init.clone()], full_depth: 0 };
+        let mut st = St { init: 0, model: init };
+        for k in 0..hist.len() {
+            match sys.transition(&st, &hist[..k], &hist[k]) {
+                Ok((nx, _)) => st = nx,
+                Err((sig, summary, _)) => return vec![Violation { sig: format!("medium:{}", sig), summary, case: case.clone() }],
+            }
+        }
         return vec![];
     }
     let (_, full_depth, s_max) = bounds(ctx.tier);
